@@ -124,6 +124,35 @@ func (t *T) Param(name string, quick, thorough int) int {
 	return i
 }
 
+// FloatSame: same float in the sense of "same printed form" (NaN equals
+// NaN, +0 differs from -0). The engine builds one SMT equality for it.
+func (t *T) FloatSame(a, b float64) bool {
+	if a != a || b != b {
+		return a != a && b != b
+	}
+	return math.Float64bits(a) == math.Float64bits(b)
+}
+
+// All and Any combine conditions without short-circuit branching (the
+// engine builds one term instead of forking per operand).
+func (t *T) All(cs ...bool) bool {
+	for _, c := range cs {
+		if !c {
+			return false
+		}
+	}
+	return true
+}
+
+func (t *T) Any(cs ...bool) bool {
+	for _, c := range cs {
+		if c {
+			return true
+		}
+	}
+	return false
+}
+
 func (t *T) Assume(c bool) {
 	if !c {
 		t.AssumeFailed = true
